@@ -58,10 +58,19 @@ func sigsStr(xs []sg) string {
 	return "<<" + strings.Join(ss, ", ") + ">>"
 }
 
-// gcase: the general case of Auth.tla (GCase)
+// gcase: the general case of Auth.tla (GCase): the payer statements are made over the submitted list of sender signatures, RLP carrier
 func gcase(cfg []int, kind string, sigs []sg, f, gp0, gp string, pcfg []int, psigs []sg) tla.Value {
-	return tla.MustParse(fmt.Sprintf(`[cfg |-> %s, kind |-> "%s", sigs |-> %s, f |-> "%s", gp0 |-> "%s", gp |-> "%s", pcfg |-> %s, psigs |-> %s, box |-> "none", ncfg |-> <<>>, label |-> "true"]`,
-		seqStr(cfg), kind, sigsStr(sigs), f, gp0, gp, seqStr(pcfg), sigsStr(psigs)))
+	over := make([]int, len(sigs))
+	for i := range over {
+		over[i] = i + 1
+	}
+	return xcase(cfg, kind, sigs, f, gp0, gp, pcfg, psigs, over, "rlp")
+}
+
+// xcase: the same with the payer statements made over the list `over` (positions of sigs; 0: a signature that is not in it), carrier via
+func xcase(cfg []int, kind string, sigs []sg, f, gp0, gp string, pcfg []int, psigs []sg, over []int, via string) tla.Value {
+	return tla.MustParse(fmt.Sprintf(`[cfg |-> %s, kind |-> "%s", sigs |-> %s, f |-> "%s", gp0 |-> "%s", gp |-> "%s", pcfg |-> %s, psigs |-> %s, box |-> "none", ncfg |-> <<>>, label |-> "true", over |-> %s, via |-> "%s"]`,
+		seqStr(cfg), kind, sigsStr(sigs), f, gp0, gp, seqStr(pcfg), sigsStr(psigs), seqStr(over), via))
 }
 
 // caseValue: the three honest forms of Auth.tla (Case): pay = self / payer / own, every signature made in the scheme of its form
@@ -249,6 +258,42 @@ func randDriver(args []string) error {
 			y := clone(ps)
 			y[len(y)-1] = sg{by: y[0].by, v: 1 - y[0].v}
 			do(caseValue(cfg, "transfer", min, "none", "payer", pc, y))
+		}
+		// the payer's statement and the list of sender signatures: the sender signature of another account's transaction stands
+		// somewhere in the list the payer signed over (honest); the payer's statement was made for that other transaction and its
+		// sender signature then put in front of / among the real ones; it was made before the last co-signers added their
+		// signatures; over the first signature only; over the list in another order
+		{
+			alien := sg{by: 0, sch: "reimb", who: "Q"}
+			rs, pp := tag(min, "reimb", "S"), tag(ps, "payer", "P")
+			ident := func(n int) []int {
+				x := make([]int, n)
+				for i := range x {
+					x[i] = i + 1
+				}
+				return x
+			}
+			j := rng.Intn(len(rs) + 1)
+			mixed := append(append(clone(rs[:j]), alien), rs[j:]...)
+			do(xcase(cfg, "transfer", mixed, "none", "payer", "payer", pc, pp, ident(len(mixed)), "rlp"))
+			do(xcase(cfg, "transfer", mixed, "none", "payer", "payer", pc, pp, []int{j + 1}, "rlp"))
+			do(xcase(cfg, "transfer", append([]sg{alien}, rs...), "none", "payer", "payer", pc, pp, []int{1}, "rlp"))
+			if len(rs) > 1 {
+				do(xcase(cfg, "transfer", rs, "none", "payer", "payer", pc, pp, ident(1+rng.Intn(len(rs)-1)), "rlp"))
+				rev := ident(len(rs))
+				for a, b := 0, len(rev)-1; a < b; a, b = a+1, b-1 {
+					rev[a], rev[b] = rev[b], rev[a]
+				}
+				do(xcase(cfg, "transfer", rs, "none", "payer", "payer", pc, pp, rev, "rlp"))
+			}
+			// the same through the JSON carrier: honest; the gasPayer member dropped after everybody signed
+			do(xcase(cfg, "transfer", rs, "none", "payer", "payer", pc, pp, ident(len(rs)), "json"))
+			all := clone(min)
+			for i := range all {
+				all[i].old = true
+			}
+			do(xcase(cfg, "transfer", tag(all, "default", "S"), "gasPayer", "sender", "absent", nil, nil, ident(len(all)), "json"))
+			do(xcase(cfg, "transfer", tag(min, "default", "S"), "none", "absent", "absent", nil, nil, ident(len(min)), "json"))
 		}
 		for i := range ps {
 			ps[i].old = true
